@@ -73,7 +73,9 @@ func c05cShrinkRun(c *c05cShrinkCase) (clause string) {
 func c05cShrinkRunOnce(c *c05cShrinkCase) (clause string) {
 	addr := "a" + string(make([]byte, c.AddrLen))[1:]
 	f := &c05cShrinkIO{c: c}
-	u := &udpConn{ID: 9, SendBuf: make([]byte, protocol.MaxUDPSize), SendFunc: f.SendMessage}
+	// a session built by the real manager and constructor (see c05NewConn)
+	u, cio := c05NewConn(f.SendMessage, 1)
+	defer close(cio.in)
 	payloads := [][]byte{c05cPayload(c.Payload, 0)}
 	if c.Next > 0 {
 		payloads = append(payloads, c05cPayload(c.Next, 1))
@@ -102,7 +104,7 @@ func c05cShrinkRunOnce(c *c05cShrinkCase) (clause string) {
 					which = k
 				}
 			}
-			if which < 0 || out.Addr != addr || out.SessionID != 9 {
+			if which < 0 || out.Addr != addr || out.SessionID != m.SessionID {
 				return fmt.Sprintf("the far side reassembled a message of %d bytes that was never sent (messages sent: %d and %d bytes) after datagram %d of %d", len(out.Data), c.Payload, c.Next, i+1, len(f.wire))
 			}
 			delivered[which]++
